@@ -310,14 +310,14 @@ set_option maxRecDepth 100000 in
     the connectors see the acceptors as `10.0.0.1:8000` / `10.0.0.2:9000` -/
 example : HEx.fin.net.chans.map (fun c => (c.ep0.toString, c.vis0.toString, c.vis1.toString))
     = [("10.0.1.1:2001", "10.0.1.1:2001", "10.0.0.1:8000"), ("10.0.1.1:2002", "99.0.0.9:2002", "10.0.0.1:8000"),
-       ("10.0.1.1:2003", "10.0.1.1:2003", "10.0.0.2:9000"), ("10.0.1.1:2004", "10.0.1.1:2004", "10.0.0.2:9000")] := by
+       ("10.0.1.1:2003", "10.0.1.1:2003", "10.0.0.2:9000"), ("10.0.1.1:7000", "10.0.1.1:7000", "10.0.0.2:9000")] := by
   decide
 
 set_option maxRecDepth 100000 in
 /-- the SYN-ACK of channel 0 crossing a NAT on the acceptor's side changes no view (repaired
     behaviour), and the theorems above cover such histories -/
 example : ((HS.run {} HEx.init
-      [.openAcc "a0" true, .bindAcc "a0" HEx.aep, .listen "a0" 5, .connect "s1" HEx.aep 1, .natRewrite 0 "99.0.0.9",
+      [.openAcc "a0" true, .bind "a0" HEx.aep, .listen "a0" 5, .connect "s1" HEx.aep 1, .natRewrite 0 "99.0.0.9",
        .deliverSyn 0 "a0", .accept "a0" (.into 10 "s0" true),
        .natRewrite 0 "99.0.0.2", .deliverSynAck 0 "s1"]).net.chans.map (fun c => (c.vis0.toString, c.vis1.toString)))
     = [("99.0.0.9:2000", "10.0.0.1:8000")] := by decide
